@@ -172,7 +172,7 @@ Prod ==
       [k |-> "kw0", kw |-> "VirtualAlloc", alias |-> "virtualalloc", ctx |-> "", variant |-> FALSE],
       [k |-> "kw0", kw |-> "VirtualAllocEx", alias |-> "virtualallocex", ctx |-> "", variant |-> FALSE],
       [k |-> "kw0", kw |-> "VirtualProtect", alias |-> "virtualprotect", ctx |-> "", variant |-> FALSE],
-      [k |-> "kw0", kw |-> "VirtualProtectEx", alias |-> "virtualprotextex", ctx |-> "", variant |-> FALSE],
+      [k |-> "kw0", kw |-> "VirtualProtectEx", alias |-> "virtualprotectex", ctx |-> "", variant |-> FALSE],
       [k |-> "kw0", kw |-> "VirtualFree", alias |-> "virtualfree", ctx |-> "", variant |-> FALSE],
       [k |-> "kw0", kw |-> "GetThreadContext", alias |-> "getthreadcontext", ctx |-> "", variant |-> FALSE],
       [k |-> "kw0", kw |-> "SetThreadContext", alias |-> "setthreadcontext", ctx |-> "", variant |-> FALSE],
